@@ -343,13 +343,9 @@ def run(run):
     else:
         cases = K.standard_cases(preds + cross + joins, ["range", "dupint", "str"], [("np", 1, True), ("np", 3, True), ("np", 5, False)])
     run_cases(run, "vf.props.C03", "check_case_registered", cases, {})
-    try:
-        from vf.contracts import filters as fspecs
-        from vf.props._p import run_specs
+    from vf.contracts.registry import run_property_specs
 
-        run_specs(run, fspecs.SPECS, "C03")
-    except ImportError:
-        pass
+    run_property_specs(run, "C03")
     run.assume("a filter selects the rows whose mask is True; a missing mask value selects nothing (pandas semantics)")
     run.trust("reference evaluator of predicate trees and of list-of-tuples DNF filters in vf/props/C03.py")
 
